@@ -2,7 +2,7 @@
 // hcobs/src/lib.rs (scratch copy) as a child module.  Same triple as kc/hcobs.rs c07_find_stuff_sequence_bounded
 // (Some(i) <=> i is the FIRST index with FE FD), executed on lengths beyond any block size a blocked or SWAR scan
 // would use.  BOUNDED: every length 0..=NL (NL = @@NL@@) x 6 backgrounds x {no pair, FE FD at every position, a lone FE
-// at every position, a lone FD at every position, two pairs}.
+// at every position, a lone FD at every position, two pairs at distance 2..=17, 31..33, 63..65}.
 use super::*;
 
 const NL: usize = @@NL@@;
@@ -51,8 +51,8 @@ fn verif_native_find_stuff_sequence_positions() {
                     v[p] = 0xFE;
                     v[p + 1] = 0xFD;
                     check(&v);
-                    // a second pair one block of 8 / 16 / 64 further on
-                    for d in [2usize, 8, 16, 64] {
+                    // a second pair at every small distance, and around 32 / 64, further on
+                    for d in (2usize..=17).chain([31, 32, 33, 63, 64, 65]) {
                         if p + d + 1 < len {
                             let mut w = v.clone();
                             w[p + d] = 0xFE;
